@@ -527,11 +527,7 @@ def replay_lex_first(p):
             toks = ref.py_tokenize(text)
         except ref.RefLexError as e:
             # tokens before the error position?
-            pos = e.args[0]
-            try:
-                before = ref.py_tokenize(text[:pos])
-            except ref.RefLexError:
-                before = []
+            before = getattr(e, "tokens", [])
             if before:
                 return ("token", before[0][0], before[0][2])
             return ("error", None, None)
